@@ -292,12 +292,48 @@ func checkGetOpts(r *Run, prog *Program, a *Anchors, pfx string) {
 	okLoop, okBase, okCall, okRet := true, true, true, true
 	maxCalls, nPaths := 0, 0
 	why2 := ""
+	// the edges on which a loop over the option list is left because the list is exhausted: `i < len(opts)` false
+	exhaustEdge := map[string]bool{}
+	for _, f := range prog.ModuleFuncs() {
+		if f != fn && !(prog.InModule(f) && fnPkg(f) == prog.Bexpr.Types) {
+			continue
+		}
+		for _, b := range f.Blocks {
+			ifi, isIf := b.Instrs[len(b.Instrs)-1].(*ssa.If)
+			if !isIf {
+				continue
+			}
+			bo, isBO := ifi.Cond.(*ssa.BinOp)
+			if !isBO || bo.Op != token.LSS {
+				continue
+			}
+			lc, isCall := bo.Y.(*ssa.Call)
+			if !isCall {
+				continue
+			}
+			if bi, isB := lc.Call.Value.(*ssa.Builtin); !isB || bi.Name() != "len" || len(lc.Call.Args) != 1 || !isOptionList(lc.Call.Args[0].Type()) {
+				continue
+			}
+			exhaustEdge[fmt.Sprintf("%s.b%d:F", f.Name(), b.Index)] = true
+		}
+	}
 	for _, sm := range psF.Run(fn) {
 		if sm.Ret == nil || len(sm.Results) != 1 {
 			okRet = false
 			continue
 		}
 		nPaths++
+		if len(exhaustEdge) > 0 {
+			exhausted := false
+			for _, t := range sm.St.trail {
+				if exhaustEdge[t] {
+					exhausted = true
+				}
+			}
+			if !exhausted {
+				okLoop, why2 = false, "getOpts returns on a path that leaves the loop over the options before the list is exhausted (a nil entry is skipped, it does not end the fold) [path "+strings.Join(sm.St.trail, " ")+"]"
+			}
+		}
 		var idxs []int64
 		var target *Sym
 		for _, ev := range sm.Events() {
